@@ -5,7 +5,6 @@ import os
 import common
 import conc
 import driver
-import replay as rp
 
 PROPERTIES_FILE = "Properties/Properties_C01_root.v"
 COQ_DEPS = ["Proofs/RootQ_wake_proofs.vo", "Extract/Extract_rootq.vo"]
@@ -446,23 +445,7 @@ def global_replay(run, threads, window=128):
             born[workers[k][1]] = sq
         else:
             target.setdefault(thr, []).append(100000 + k)
-    # The stamp of a thread's first event is taken after the recorder has set the thread up and can be very late.  A pool
-    # worker's first event is its decrement of dgq_pending: its place is found on the exact old->new chain of dgq_pending
-    # (a word that is only ever read-modify-written): right before the next write of that chain.
-    M32 = 0xFFFFFFFF
-    firsts = set(id(evs[0]) for (thr, kind, evs) in threads if kind == "worker" and thr in born)
-    pend_w = [e for (_, _, evs) in threads for e in evs
-              if e.obj == 1 and e.off == run.off_pend and (e.kind in (6, 7) or (e.kind == 4 and (e.ok & 1)))]
-    newv = lambda e: (e.a + e.b) & M32 if e.kind == 6 else (e.a - e.b) & M32 if e.kind == 7 else e.b & M32
-    order = rp.chain_wild(pend_w, 0, lambda e: e.a & M32, newv, lambda e: e.thr, lambda e: e.seq)
-    second = {id(evs[0]): 2 * evs[1].seq for (thr, kind, evs) in threads if len(evs) > 1}
     key = {}
-    if order is not None:
-        nxt = None
-        for e in reversed(order):
-            if id(e) in firsts:
-                key[id(e)] = min((nxt - 1) if nxt is not None else 2 * e.seq, second.get(id(e), 2 * e.seq + 2) - 1)
-            nxt = key.get(id(e), 2 * e.seq)
     lines = []
     for (thr, kind, evs) in threads:
         lines.append("R %x %x %s" % (thr + 1, 1 if kind == "worker" else 0, " ".join("%x" % u for u in target.get(thr, []))))
